@@ -30,7 +30,7 @@ func init() {
 			StatesMean:  "distinct (input, reader split, seed) cases; transitions = NewDialogueRunner calls",
 			Assumptions: []string{"the generated ANTLR recogniser of the repository is the definition of syntactic validity (trusted base), except for mixed indentation, which is decided by the harness", "mixed indentation on blank / comment-only lines and on the first line of a reader is not constrained"},
 		},
-		QuickBudget: 75 * time.Second, ThoroughBudget: 14 * time.Minute, CrashIsViolation: true,
+		QuickBudget: 180 * time.Second, ThoroughBudget: 14 * time.Minute, CrashIsViolation: true,
 		Run: runC05,
 	})
 }
